@@ -1,32 +1,413 @@
-//! prototype
+//! X02 driver (a): the Lambda-style reporter of metrique-metricsrs (`lambda_reporter`).
+//!
+//!   lam one                      one behaviour (JSON on stdin) in THIS process, result JSON on stdout.
+//!                                The reporter is process-global (OnceLock + the global metrics.rs
+//!                                recorder), and an I/O error makes its buffering writer fail for the
+//!                                rest of the process, so every behaviour gets a process of its own.
+//!   lam batch --behaviours f.ndjson --out o.ndjson [--jobs n]
+//!                                runs `lam one` once per behaviour (children of this binary).
+//!
+//! A behaviour is a sequence of API-level steps produced by TLC (spec/lambda/LambdaReporterReplay.tla):
+//!   {"op":"Inc","k":"c1","n":1} {"op":"Set","k":"g1","v":2} {"op":"Rec","k":"h1"}   updates through
+//!       the `metrics` 0.24 macros (global recorder installed by `install_reporter_to_writer`)
+//!   {"op":"Flush","fault":"ok|short|intr|werr0|werrP|ferr"}   one `flush_metrics` at the end of the
+//!       invocation; the fault is what the destination does to the first write that carries bytes
+//! The destination is the `Fn() -> impl io::Write` handed to `install_reporter_to_writer`: every
+//! instance it makes is one *chunk* (what one stdout handle would receive); the driver reports, per
+//! step, the chunks that received bytes during that step, the result of the call and the tracing
+//! events (WARN/ERROR) emitted by the library. Judging is done by checks/chk_x_lambda.py against the
+//! observation TLC computed for the behaviour.
+
 use metrics_024 as metrics;
 use metrique_metricsrs::lambda_reporter;
+use metrique_timesource::{TimeSource, fakes::StaticTimeSource, set_time_source};
+use metrique_writer_core::format::Format;
+use metrique_writer_core::{Entry, IoStreamError};
 use metrique_writer_format_emf::Emf;
-use std::io;
+use serde_json::{Value as J, json};
+use std::collections::HashMap;
+use std::io::{self, Read, Write};
+use std::sync::atomic::{AtomicUsize, Ordering};
 use std::sync::{Arc, Mutex};
+use std::time::{Duration, Instant, UNIX_EPOCH};
+use vharness::util;
+
+// ------------------------------------------------------------------------------------------
+// scripted destination
+// ------------------------------------------------------------------------------------------
+#[derive(Clone, Copy, PartialEq, Debug)]
+enum Fault {
+    Ok,
+    Short,
+    Intr,
+    Werr0,
+    WerrP,
+    Ferr,
+}
+
+impl Fault {
+    fn parse(s: &str) -> Fault {
+        match s {
+            "short" => Fault::Short,
+            "intr" => Fault::Intr,
+            "werr0" => Fault::Werr0,
+            "werrP" => Fault::WerrP,
+            "ferr" => Fault::Ferr,
+            _ => Fault::Ok,
+        }
+    }
+    fn name(self) -> &'static str {
+        match self {
+            Fault::Ok => "ok",
+            Fault::Short => "short",
+            Fault::Intr => "intr",
+            Fault::Werr0 => "werr0",
+            Fault::WerrP => "werrP",
+            Fault::Ferr => "ferr",
+        }
+    }
+}
+
+#[derive(Default)]
+struct Chunk {
+    bytes: Vec<u8>,
+    /// (bytes offered, bytes accepted or -1 = error)
+    calls: Vec<(usize, i64)>,
+    fault: Option<Fault>,
+    flush: Option<bool>,
+    /// step during which the instance was made
+    step: usize,
+}
+
+#[derive(Default)]
+struct Shared {
+    chunks: Vec<Chunk>,
+    armed: Option<Fault>,
+    step: usize,
+}
 
 #[derive(Clone, Default)]
-struct Dest(Arc<Mutex<Vec<String>>>);
-struct DestW(Dest, Vec<u8>);
-impl io::Write for DestW {
-    fn write(&mut self, b: &[u8]) -> io::Result<usize> { self.1.extend_from_slice(b); self.0.0.lock().unwrap().push(format!("write {}", b.len())); Ok(b.len()) }
-    fn flush(&mut self) -> io::Result<()> { self.0.0.lock().unwrap().push(format!("flush {:?}", String::from_utf8_lossy(&self.1))); Ok(()) }
+struct Dest(Arc<Mutex<Shared>>);
+
+struct DestW {
+    d: Dest,
+    idx: usize,
+    ncalls: usize,
 }
+
+impl Dest {
+    fn make(&self) -> DestW {
+        let mut g = self.0.lock().unwrap();
+        let step = g.step;
+        g.chunks.push(Chunk { step, ..Default::default() });
+        DestW { d: self.clone(), idx: g.chunks.len() - 1, ncalls: 0 }
+    }
+}
+
+impl io::Write for DestW {
+    fn write(&mut self, buf: &[u8]) -> io::Result<usize> {
+        let mut g = self.d.0.lock().unwrap();
+        if buf.is_empty() {
+            return Ok(0);
+        }
+        if g.chunks[self.idx].fault.is_none() {
+            // the fault of this invocation goes to the first instance that is offered bytes
+            let f = g.armed.take().unwrap_or(Fault::Ok);
+            g.chunks[self.idx].fault = Some(f);
+        }
+        let f = g.chunks[self.idx].fault.unwrap();
+        self.ncalls += 1;
+        let n = self.ncalls;
+        let c = &mut g.chunks[self.idx];
+        let res: io::Result<usize> = match f {
+            Fault::Ok | Fault::Ferr => Ok(buf.len()),
+            Fault::Short => Ok(buf.len().min(61)),
+            Fault::Intr => {
+                if n % 2 == 1 {
+                    Err(io::Error::new(io::ErrorKind::Interrupted, "scripted interruption"))
+                } else {
+                    Ok(buf.len().min(16))
+                }
+            }
+            Fault::Werr0 => Err(io::Error::other("scripted write error")),
+            Fault::WerrP => {
+                if n == 1 && buf.len() > 1 {
+                    Ok((buf.len() - 1).min(10))
+                } else {
+                    Err(io::Error::new(io::ErrorKind::BrokenPipe, "scripted write error after a partial write"))
+                }
+            }
+        };
+        match &res {
+            Ok(k) => {
+                c.bytes.extend_from_slice(&buf[..*k]);
+                c.calls.push((buf.len(), *k as i64));
+            }
+            Err(_) => c.calls.push((buf.len(), -1)),
+        }
+        res
+    }
+
+    fn flush(&mut self) -> io::Result<()> {
+        let mut g = self.d.0.lock().unwrap();
+        let c = &mut g.chunks[self.idx];
+        if c.fault == Some(Fault::Ferr) {
+            c.flush = Some(false);
+            Err(io::Error::other("scripted flush error"))
+        } else {
+            c.flush = Some(true);
+            Ok(())
+        }
+    }
+}
+
+/// A format that hands its output to the writer in many small `write_all` calls (formats are allowed
+/// to; EMF happens to make one call per entry).
+struct Chunky<F>(F, usize);
+impl<F: Format> Format for Chunky<F> {
+    fn format(&mut self, entry: &impl Entry, output: &mut impl io::Write) -> Result<(), IoStreamError> {
+        let mut v = Vec::new();
+        self.0.format(entry, &mut v)?;
+        for piece in v.chunks(self.1) {
+            output.write_all(piece).map_err(IoStreamError::Io)?;
+        }
+        Ok(())
+    }
+}
+
+// ------------------------------------------------------------------------------------------
+// tracing capture
+// ------------------------------------------------------------------------------------------
+#[derive(Clone, Default)]
+struct LogBuf(Arc<Mutex<Vec<u8>>>);
+impl io::Write for LogBuf {
+    fn write(&mut self, b: &[u8]) -> io::Result<usize> {
+        self.0.lock().unwrap().extend_from_slice(b);
+        Ok(b.len())
+    }
+    fn flush(&mut self) -> io::Result<()> {
+        Ok(())
+    }
+}
+
+fn key_name(k: &str) -> &'static str {
+    match k {
+        "c1" => "Requests",
+        "c2" => "Errors",
+        "g1" => "InFlight",
+        "g2" => "PoolSize",
+        "h1" => "Latency",
+        "h2" => "Size",
+        _ => "Other",
+    }
+}
+
+fn update(st: &J) {
+    let k = st["k"].as_str().unwrap_or("");
+    match st["op"].as_str().unwrap_or("") {
+        "Inc" => {
+            let n = st["v"].as_u64().or(st["n"].as_u64()).unwrap_or(1);
+            match k {
+                "c1" => metrics::counter!("Requests").increment(n),
+                "c2" => metrics::counter!("Errors", "kind" => "bad").increment(n),
+                _ => metrics::counter!("Other").increment(n),
+            }
+        }
+        "Set" => {
+            let v = st["v"].as_u64().unwrap_or(0) as f64;
+            match k {
+                "g1" => metrics::gauge!("InFlight").set(v),
+                "g2" => metrics::gauge!("PoolSize", "pool" => "a").set(v),
+                _ => metrics::gauge!("Other").set(v),
+            }
+        }
+        "Rec" => {
+            let v = st["v"].as_u64().unwrap_or(5) as f64;
+            match k {
+                "h1" => metrics::histogram!("Latency").record(v),
+                "h2" => metrics::histogram!("Size", "kind" => "bad").record(v),
+                _ => metrics::histogram!("Other").record(v),
+            }
+        }
+        other => panic!("unknown update {other}"),
+    }
+}
+
+fn take_chunks(d: &Dest) -> Vec<J> {
+    let mut g = d.0.lock().unwrap();
+    let chunks = std::mem::take(&mut g.chunks);
+    chunks
+        .into_iter()
+        .filter(|c| !c.calls.is_empty() || c.flush == Some(false))
+        .map(|c| {
+            json!({"bytes": String::from_utf8_lossy(&c.bytes), "utf8": std::str::from_utf8(&c.bytes).is_ok(),
+                   "calls": c.calls.iter().map(|(o, a)| json!([o, a])).collect::<Vec<_>>(),
+                   "fault": c.fault.map(|f| f.name()), "flush": c.flush, "made_in_step": c.step})
+        })
+        .collect()
+}
+
+fn cmd_one() {
+    let mut s = String::new();
+    io::stdin().read_to_string(&mut s).unwrap();
+    let b: J = serde_json::from_str(&s).expect("behaviour json");
+    let fmt = b["variant"]["fmt"].as_str().unwrap_or("emf");
+    let call = b["variant"]["call"].as_str().unwrap_or("sync");
+
+    let logs = LogBuf::default();
+    let logs2 = logs.clone();
+    tracing_subscriber::fmt()
+        .with_max_level(tracing::Level::WARN)
+        .with_ansi(false)
+        .without_time()
+        .with_writer(move || logs2.clone())
+        .init();
+
+    let dest = Dest::default();
+    let d2 = dest.clone();
+    let mk = move || d2.make();
+    let emf = || Emf::all_validations("X02".to_string(), vec![vec![]]);
+    match fmt {
+        "chunky" => lambda_reporter::install_reporter_to_writer::<dyn metrics::Recorder, _, _, _>(Chunky(emf(), 5), mk),
+        _ => lambda_reporter::install_reporter_to_writer::<dyn metrics::Recorder, _, _, _>(emf(), mk),
+    }
+    // a second installation is ignored (OnceLock): its destination must never see a byte
+    let second = Dest::default();
+    if b["variant"]["reinstall"].as_bool().unwrap_or(false) {
+        let s2 = second.clone();
+        lambda_reporter::install_reporter_to_writer::<dyn metrics::Recorder, _, _, _>(emf(), move || s2.make());
+    }
+
+    let rt = if call == "tokio" {
+        Some(tokio::runtime::Builder::new_current_thread().enable_all().build().unwrap())
+    } else {
+        None
+    };
+    // every invocation's readout carries its own timestamp: base + 1000 s * invocation
+    let base_s: u64 = std::time::SystemTime::now().duration_since(UNIX_EPOCH).unwrap().as_secs() - 3600;
+    let mut inv = 0u64;
+    let mut out = Vec::new();
+    for (i, st) in b["steps"].as_array().unwrap().iter().enumerate() {
+        dest.0.lock().unwrap().step = i + 1;
+        let op = st["op"].as_str().unwrap_or("");
+        let mut ret = J::Null;
+        let mut took_ms = 0u64;
+        if op == "Flush" {
+            inv += 1;
+            dest.0.lock().unwrap().armed = Some(Fault::parse(st["fault"].as_str().unwrap_or("ok")));
+            let _g = set_time_source(TimeSource::custom(StaticTimeSource::at_time(
+                UNIX_EPOCH + Duration::from_secs(base_s + 10 * inv),
+            )));
+            let t0 = Instant::now();
+            let r = util::catch(|| match call {
+                "tokio" => rt.as_ref().unwrap().block_on(lambda_reporter::flush_metrics()),
+                "block_on" => futures::executor::block_on(lambda_reporter::flush_metrics()),
+                _ => lambda_reporter::flush_metrics_sync(),
+            });
+            took_ms = t0.elapsed().as_millis() as u64;
+            ret = match r {
+                Ok(Ok(())) => json!("ok"),
+                Ok(Err(e)) => json!(format!("err: {e}")),
+                Err(p) => json!(format!("panic: {p}")),
+            };
+            // an unconsumed fault must not leak into a later invocation
+            dest.0.lock().unwrap().armed = None;
+        } else {
+            if let Err(p) = util::catch(|| update(st)) {
+                ret = json!(format!("panic: {p}"));
+            }
+        }
+        let chunks = take_chunks(&dest);
+        let lg = std::mem::take(&mut *logs.0.lock().unwrap());
+        let lg = String::from_utf8_lossy(&lg);
+        let lines: Vec<&str> = lg.lines().filter(|l| !l.trim().is_empty()).collect();
+        out.push(json!({"op": op, "ret": ret, "chunks": chunks, "logs": lines, "took_ms": took_ms,
+                        "ts_ms": if op == "Flush" { json!((base_s + 10 * inv) * 1000) } else { J::Null }}));
+    }
+    let stray = take_chunks(&second);
+    let names: serde_json::Map<String, J> =
+        ["c1", "c2", "g1", "g2", "h1", "h2"].iter().map(|k| (k.to_string(), json!(key_name(k)))).collect();
+    let res = json!({"id": b["id"], "steps": out, "second_install_chunks": stray, "names": names});
+    println!("{}", serde_json::to_string(&res).unwrap());
+    // the writer thread of the reporter's queue is detached; leave without waiting for it
+    io::stdout().flush().unwrap();
+    std::process::exit(0);
+}
+
+fn run_child(exe: &std::path::Path, b: &J, timeout: Duration) -> J {
+    use std::process::{Command, Stdio};
+    let mut ch = Command::new(exe)
+        .arg("one")
+        .stdin(Stdio::piped())
+        .stdout(Stdio::piped())
+        .stderr(Stdio::piped())
+        .env("RUST_BACKTRACE", "0")
+        .spawn()
+        .expect("spawn lam one");
+    {
+        let mut si = ch.stdin.take().unwrap();
+        si.write_all(serde_json::to_string(b).unwrap().as_bytes()).unwrap();
+    }
+    let t0 = Instant::now();
+    loop {
+        match ch.try_wait().unwrap() {
+            Some(_) => break,
+            None if t0.elapsed() > timeout => {
+                let _ = ch.kill();
+                let _ = ch.wait();
+                return json!({"id": b["id"], "timeout": true});
+            }
+            None => std::thread::sleep(Duration::from_micros(300)),
+        }
+    }
+    let o = ch.wait_with_output().unwrap();
+    let so = String::from_utf8_lossy(&o.stdout);
+    match so.lines().last().and_then(|l| serde_json::from_str::<J>(l).ok()) {
+        Some(v) if o.status.success() => v,
+        _ => json!({"id": b["id"], "crash": String::from_utf8_lossy(&o.stderr).chars().take(2000).collect::<String>(),
+                    "status": o.status.code()}),
+    }
+}
+
+fn cmd_batch(a: &HashMap<String, String>) {
+    let beh = util::read_ndjson(util::arg_str(a, "behaviours", ""));
+    let jobs = util::arg_u64(a, "jobs", 8) as usize;
+    let timeout = Duration::from_secs(util::arg_u64(a, "timeout", 20));
+    let exe = std::env::current_exe().unwrap();
+    let next = AtomicUsize::new(0);
+    let results: Mutex<Vec<(usize, J)>> = Mutex::new(Vec::new());
+    std::thread::scope(|sc| {
+        for _ in 0..jobs.max(1) {
+            sc.spawn(|| {
+                loop {
+                    let i = next.fetch_add(1, Ordering::Relaxed);
+                    if i >= beh.len() {
+                        break;
+                    }
+                    let r = run_child(&exe, &beh[i], timeout);
+                    results.lock().unwrap().push((i, r));
+                }
+            });
+        }
+    });
+    let mut rs = results.into_inner().unwrap();
+    rs.sort_by_key(|x| x.0);
+    let mut f = io::BufWriter::new(std::fs::File::create(util::arg_str(a, "out", "")).unwrap());
+    for (_, r) in rs {
+        serde_json::to_writer(&mut f, &r).unwrap();
+        f.write_all(b"\n").unwrap();
+    }
+    f.flush().unwrap();
+}
+
 fn main() {
-    let d = Dest::default();
-    let d2 = d.clone();
-    lambda_reporter::install_reporter_to_writer::<dyn metrics::Recorder, _, _, _>(Emf::all_validations("NS".into(), vec![vec![]]), move || { d2.0.lock().unwrap().push("make".into()); DestW(d2.clone(), vec![]) });
-    println!("empty flush: {:?}", lambda_reporter::flush_metrics_sync().is_ok());
-    println!("{:#?}", std::mem::take(&mut *d.0.lock().unwrap()));
-    metrics::counter!("c1").increment(2);
-    metrics::counter!("c2", "lab" => "v").increment(3);
-    metrics::gauge!("g1").set(4.0);
-    metrics::histogram!("h1").record(5.0);
-    metrics::histogram!("h1").record(7.0);
-    lambda_reporter::flush_metrics_sync().unwrap();
-    println!("{:#?}", std::mem::take(&mut *d.0.lock().unwrap()));
-    lambda_reporter::flush_metrics_sync().unwrap();
-    println!("{:#?}", std::mem::take(&mut *d.0.lock().unwrap()));
-    std::thread::sleep(std::time::Duration::from_millis(2100));
-    println!("{:#?}", std::mem::take(&mut *d.0.lock().unwrap()));
+    let (cmd, a) = util::args();
+    match cmd.as_str() {
+        "one" => cmd_one(),
+        "batch" => cmd_batch(&a),
+        _ => {
+            eprintln!("usage: lam one | batch --behaviours f --out o [--jobs n]");
+            std::process::exit(2);
+        }
+    }
 }
